@@ -13,6 +13,8 @@ import TrompModel.Gen.Cxx.CompareTable
 import TrompModel.Gen.Cxx.ParamMatchesMatcher
 import TrompModel.Gen.Cxx.ParamMatchesValue
 import TrompModel.Gen.Cxx.PredicateMatches
+import TrompModel.Gen.Cxx.MemberIsCheck
+import TrompModel.Gen.Cxx.AnyPredicate
 import TrompModel.Model.Matcher
 import TrompModel.Tie.Base
 
@@ -70,5 +72,15 @@ theorem param_matches_matcher_tie {Ï„ Ï… : Type} (m : Ï„ â†’ Ï… â†’ Bool) (t : Ï
 theorem param_matches_value_tie (orc : List Bool) (v x : Val) :
     Cxx.param_matches_value (fun (t u : Val) => u == t) v x = eval orc (.val v) x := by
   simp [Cxx.param_matches_value, Id.run, id_pure, eval]
+
+/-- **`MEMBER_IS(&T::m, c)` accepts exactly when `c` accepts the member**: the functor hands `c` and the member of the argument
+    to `param_matches`, nothing else. -/
+theorem member_is_tie (orc : List Bool) (f : Nat) (m : Mt) (x : Val) :
+    Cxx.member_is_check (fun (c : Mt) (member : Val) => eval orc c member) m (field f x) = eval orc (.member f m) x := by
+  simp [Cxx.member_is_check, Id.run, id_pure, eval]
+
+/-- **`_` / `ANY(T)` accept everything.** -/
+theorem any_predicate_tie (orc : List Bool) (x : Val) : Cxx.any_predicate = eval orc .any x := by
+  simp [Cxx.any_predicate, Id.run, id_pure, eval]
 
 end Tromp.Tie
